@@ -19,7 +19,7 @@ ASSUMPTIONS = [
     "a tilt is issued the way the tilt mode issues it (tilt event, game.tilted, game.end_ball()); service entry is the "
     "service_mode_entered event",
 ]
-FLIPPERS = ["f1", "f2", "f3", "f4"]
+FLIPPERS = ["f1", "f2", "f3", "f4", "f7", "f8"]     # f7/f8 have no cabinet button (event driven only)
 PAIR = ["f5", "f6"]        # share a button and a coil, handed over by one event (never both enabled)
 AUTOFIRES = ["af1", "af2", "af3"]
 DEVICES = FLIPPERS + AUTOFIRES + ["kb1"]
@@ -57,6 +57,9 @@ def expected_rules(m):
     if k._enabled:           # pylint: disable=protected-access
         exp[key(k.config["switch"], k.config["coil"])] = "pulse_on_hit"
     return exp
+
+
+FLIPPER_COILS = ("c_main1", "c_hold1", "c_main2", "c_main3", "c_hold3", "c_main4", "c_main5", "c_main7", "c_hold7", "c_main8")
 
 
 def actual_rules(m):
@@ -168,7 +171,7 @@ def run(case, lifecycle):
         if lifecycle:
             # cabinet buttons cannot fire coils outside a ball: every pulse/enable reaching a flipper or autofire coil
             # driver while no ball is in play (and no ball search runs) is a violation
-            for cn in ("c_main1", "c_hold1", "c_main2", "c_main3", "c_hold3", "c_main4", "c_main5", "c_af1", "c_af2", "c_af3"):
+            for cn in FLIPPER_COILS + ("c_af1", "c_af2", "c_af3"):
                 hw = m.coils[cn].hw_driver
                 for call in ("pulse", "enable"):
                     orig = getattr(hw, call)
@@ -182,6 +185,14 @@ def run(case, lifecycle):
                     setattr(hw, call, spy)
 
         def invariant(where):
+            if lifecycle and not searching[0] and (m.game is None or not phase["ball"] or phase["service"]):
+                # no ball in play: no flipper coil may still be energised (a software flip that was never released)
+                on = [cn for cn in FLIPPER_COILS if getattr(m.coils[cn].hw_driver, "state", None) == "enabled"]
+                if on:
+                    v("coil-left-energised-outside-ball", "%s: no ball is in play (game=%r, service=%r) but flipper coils %r "
+                      "are still enabled (software-flipped: %r)" % (
+                          where, m.game is not None, phase["service"], on,
+                          [n for n in FLIPPERS if m.flippers[n]._sw_flipped]))       # pylint: disable=protected-access
             exp = expected_rules(m)
             act = actual_rules(m)
             if exp != act:
